@@ -100,8 +100,90 @@ def gen_scene(rng, c, edges, n_frames=3):
                         pts[idx] = np.nan
                     animals.append(pts)
                     break
+        for _drop in range(6):
+            if matching_is_unambiguous(c, edges, animals, a):
+                break
+            animals = animals[:-1]  # thin the frame out until the labelled pairing is the clear optimum
+            gen_scene.resampled = getattr(gen_scene, "resampled", 0) + 1
         frames.append(dict(hw=(c["H"], c["W"]), animals=animals))
     return frames
+
+
+def matching_is_unambiguous(c, edges, animals, a, margin=0.15):
+    """General position, decided independently of the code under test: with the stub's ideal PAF (unit vector inside
+    its band) and the documented scoring rule (mean of 10 samples + distance penalty, then the maximum-total
+    one-to-one assignment of maximum cardinality that C08 specifies), the labelled pairing must be the optimum for
+    every edge type by `margin`, every labelled pair must score >= 0.6 and no wrong pair may be accepted.  Scenes that
+    fail are outside 'well-separated' (forced maximum-cardinality matching of lone peaks can prefer two wrong
+    pairs) and are resampled."""
+    from scipy.optimize import linear_sum_assignment
+
+    ps, s_ = c["ps"], c["s"]
+    half = 0.75 * ps + 1.0 + 0.75 * s_
+    in_h, in_w = c["H"] / a, c["W"] / a
+    max_edge = 0.25 * max(in_h / ps, in_w / ps, 2 * len(edges)) * ps
+    P = [np.asarray(an, dtype=np.float64) / a for an in animals]  # network-input px
+
+    def paf_at(q, e):
+        sn, dn = edges[e]
+        v = np.zeros(2)
+        for an in P:
+            p0, p1 = an[sn], an[dn]
+            if not (np.all(np.isfinite(p0)) and np.all(np.isfinite(p1))):
+                continue
+            d = p1 - p0
+            L = float(np.hypot(*d))
+            if L < 1e-6:
+                continue
+            u = d / L
+            t = min(max(float((q - p0) @ u), 0.0), L)
+            if np.hypot(*(q - (p0 + t * u))) <= half:
+                v += u
+        return v
+
+    for e, (sn, dn) in enumerate(edges):
+        src = [(i, an[sn]) for i, an in enumerate(P) if np.all(np.isfinite(an[sn]))]
+        dst = [(i, an[dn]) for i, an in enumerate(P) if np.all(np.isfinite(an[dn]))]
+        if not src or not dst:
+            continue
+        S = np.zeros((len(src), len(dst)))
+        for r, (i, p0) in enumerate(src):
+            for k, (j, p1) in enumerate(dst):
+                d = p1 - p0
+                L = float(np.hypot(*d))
+                if L < 1e-6:
+                    return False
+                u = d / L
+                vals = [float(paf_at(p0 + d * t, e) @ u) for t in np.linspace(0, 1, 10)]
+                S[r, k] = float(np.mean(vals)) + min(max_edge / L - 1.0, 0.0)
+        for r, (i, _) in enumerate(src):
+            for k, (j, _) in enumerate(dst):
+                if i == j and S[r, k] < 0.6:
+                    return False
+                if i != j and S[r, k] > 0.25 - margin and False:
+                    return False
+        rr, kk = linear_sum_assignment(-S)
+        best = S[rr, kk].sum()
+        for r, k in zip(rr, kk):
+            if src[r][0] != dst[k][0] and S[r, k] >= 0.25 - 0.1:
+                return False   # optimum accepts (or nearly accepts) a wrong pair
+        labelled = {(r, k) for r, (i, _) in enumerate(src) for k, (j, _) in enumerate(dst) if i == j}
+        if not labelled <= set(zip(rr, kk)):
+            return False
+        # margin: forcing any wrong pair into the assignment must cost at least `margin`
+        for r in range(len(src)):
+            for k in range(len(dst)):
+                if src[r][0] == dst[k][0]:
+                    continue
+                S2 = S.copy()
+                S2[r, k] = 1e3
+                r2, k2 = linear_sum_assignment(-S2)
+                tot = sum(S[x, y] for x, y in zip(r2, k2))
+                if tot > best - margin and S[r, k] >= 0.25 - 0.1:
+                    return False
+                if tot > best - margin and any(src[x][0] != dst[y][0] and S[x, y] >= 0.15 for x, y in zip(r2, k2) if (x, y) != (r, k)):
+                    return False
+    return True
 
 
 def to_u(x):
@@ -180,12 +262,13 @@ def run(tier, seed, replay_case=None):
         res.violation(key, clause, dict(scene_seed=c["scene_seed"], full=c["full"], provider=c["provider"], frame=c["frame"], edges=c["edges"], animals=c["animals"], preds=c["preds"]),
                       "%s %s frame=%s edges=%s %s" % (c["provider"], c["full"], c["frame"], c["edges"], c["raised"]))
     res.clause("configurations_skipped_animals_do_not_fit", skipped)
+    res.clause("animals_removed_because_the_labelled_pairing_was_not_the_clear_optimum", getattr(gen_scene, "resampled", 0))
     res.clause("frames_with_partial_animals", sum(1 for c in cases if any(not n_["vis"] for a in c["animals"] for n_ in a)))
     res.clause("animals_total", sum(len(c["animals"]) for c in cases))
     res.clause("cases_scale_half", sum(1 for c in cases if c["cfg"]["sn"] != c["cfg"]["sd"]))
     res.coverage.update(evaluations=len(cases), exhaustive=False,
                         distinct_nontrivial=len({(str(c["full"]), c["provider"], c["frame"], str(c["animals"])) for c in cases if c["animals"]}),
-                        rule="seeded: random tree skeleton (2-6 nodes, shuffled labels and edge listing), 1-5 well-separated animals per frame with 0-2 missing nodes, sizes {64x64,64x96,96x64,80x96}, size matching, input scale {1,1/2}, cms/paf strides {1,2,4}^2, refinement, batch {1,2,3}, both providers; edge lengths between 2.5 PAF cells and 0.2 of the larger side (the scorer's distance penalty applies beyond, by design); non-trivial = frame with at least one animal")
+                        rule="seeded: random tree skeleton (2-6 nodes, shuffled labels and edge listing), 1-5 well-separated animals per frame with 0-2 missing nodes, sizes {64x64,64x96,96x64,80x96}, size matching, input scale {1,1/2}, cms/paf strides {1,2,4}^2, refinement, batch {1,2,3}, both providers; edge lengths between 2.5 PAF cells and 0.2 of the larger side (the scorer's distance penalty applies beyond, by design); 'well-separated' = under the stub's ideal PAF and the documented scoring rule the labelled pairing is the maximum-total assignment by a margin of 0.15 for every edge type (decided by the generator independently of the code; animals are removed from a frame until it holds, counted); non-trivial = frame with at least one animal")
     if cases:
         c = next((c for c in cases if c["animals"]), cases[0])
         res.sample(dict(cfg=c.get("full"), edges=c["edges"], animals=c["animals"][:2], preds=c["preds"][:2]))
